@@ -42,8 +42,8 @@ def canon(x, _path=None):
         if isinstance(x, Library):
             blocks = x.blocks
             pos = {id(b): n for n, b in enumerate(blocks)}
-            ed = tuple(sorted((k, pos.get(id(v), -1)) for k, v in x._entries_by_key.items()))
-            sd = tuple(sorted((k, pos.get(id(v), -1)) for k, v in x._strings_by_key.items()))
+            ed = tuple(sorted(((canon(k, _path), pos.get(id(v), -1)) for k, v in x._entries_by_key.items()), key=repr))
+            sd = tuple(sorted(((canon(k, _path), pos.get(id(v), -1)) for k, v in x._strings_by_key.items()), key=repr))
             other = tuple(
                 (k, canon(v, _path)) for k, v in sorted(vars(x).items()) if k not in ("_blocks", "_entries_by_key", "_strings_by_key")
             )
